@@ -284,9 +284,9 @@ def replay_json(prev_rows, P, E, k, partial, csv_rows):
                     class DS:
                         shape = ds.shape
 
-                        def resize(s, shape):
+                        def resize(s, size, axis=None):
                             tick(False)
-                            ds.resize(shape)
+                            ds.resize(size) if axis is None else ds.resize(size, axis=axis)
 
                         def __setitem__(s, key, val):
                             if tick(True, "h5") == "partial":
